@@ -120,13 +120,20 @@ def tasks(tier, seed):
     for ds in draw_sets():
         for nobs in (1, 2, 3):
             t.append(dict(part='mc', draws=ds, nobs=nobs, Rs=list(Rs)))
-    from_types = NATIVE_TYPES if tier == 'thorough' else NATIVE_TYPES[::3]
-    for typ in from_types:
+    # every native type: same seed, two fresh processes (reproducibility); quick: the second seed (sensitivity) and the
+    # simulation-only mode for every third type, thorough: for all
+    subset = NATIVE_TYPES if tier == 'thorough' else NATIVE_TYPES[::3]
+    for typ in NATIVE_TYPES:
         for sd in (1, 2):
             # mode 'll': the formula is the log likelihood of the model; mode 'sim': a dictionary of formulas for simulation
             # only (no log likelihood in it), evaluated by BIOGEME.simulate
             for mode in ('ll', 'sim'):
+                if typ not in subset and (sd != 1 or mode != 'll'):
+                    continue
                 if mode == 'sim' and tier == 'quick' and (sd != 1 or 'HALTON' in typ):
+                    continue
+                if sd == 2 and tier == 'quick':
+                    t.append(dict(part='seeded', typ=typ, seed=sd, run=0, fresh=True, mode=mode))   # sensitivity needs one run
                     continue
                 t.append(dict(part='seeded', typ=typ, seed=sd, run=0, fresh=True, mode=mode))
                 t.append(dict(part='seeded', typ=typ, seed=sd, run=1, fresh=True, mode=mode))
